@@ -3,6 +3,7 @@ package main
 // Engine: package loading, Go type -> sort mapping, symbolic state, locations.
 
 import (
+	"strconv"
 	"fmt"
 	"go/ast"
 	"go/token"
@@ -46,6 +47,9 @@ type Engine struct {
 	curFn   string
 	verbose bool
 	forceMerge bool
+	inGoStmt       bool         // the call being evaluated is the operand of a go statement
+	sharedLoopVars bool         // go.mod language version < 1.22: one variable per loop
+	loopVars       []*types.Var // loop variables of the loops being executed (innermost last)
 	noMerge    bool // `option nomerge` of the function under verification
 	assignedFields map[string]bool // heap keys of struct fields assigned somewhere in the loaded packages (others are set only by composite literals: immutable)
 }
@@ -59,6 +63,21 @@ var jivaPkgs = []string{"replica", "controller", "rpc", "sync", "util", "control
 
 func (e *Engine) Load() error {
 	e.fset = token.NewFileSet()
+	// language version of the module: before Go 1.22 a loop has one variable shared by all iterations
+	e.sharedLoopVars = true
+	if data, err := os.ReadFile(filepath.Join(e.repo, "go.mod")); err == nil {
+		for _, ln := range strings.Split(string(data), "\n") {
+			f := strings.Fields(ln)
+			if len(f) == 2 && f[0] == "go" {
+				parts := strings.Split(f[1], ".")
+				if len(parts) >= 2 {
+					maj, _ := strconv.Atoi(parts[0])
+					min, _ := strconv.Atoi(parts[1])
+					e.sharedLoopVars = maj < 1 || (maj == 1 && min < 22)
+				}
+			}
+		}
+	}
 	cfg := &packages.Config{
 		Mode:       packages.NeedName | packages.NeedFiles | packages.NeedSyntax | packages.NeedTypes | packages.NeedTypesInfo | packages.NeedImports | packages.NeedDeps,
 		Dir:        e.repo,
